@@ -198,6 +198,29 @@ pub fn dedup_ground() -> EvalResult {
             if (c1 == c2) == (f1 == f2) { res.discharged += 1; } else { fail(&mut res, format!("{n1}~{n2}/fingerprint"), format!("cases {n1} and {n2}: condition lists equal = {}, fingerprints equal = {}", c1 == c2, f1 == f2)); }
         }
     }
+    // the fingerprint of a spend is a function of that spend alone: next to another spend of the same puzzle (different
+    // solution) it is what it is on its own
+    {
+        let x = vec![cond(&[vec![51], vec![9u8; 32], vec![0x03, 0xe8]])];
+        let y = vec![cond(&[vec![51], vec![8u8; 32], vec![0x03, 0xe8]])];
+        let z = vec![cond(&[vec![51], vec![7u8; 32], vec![0x03, 0xe8]]), cond(&[vec![60], b"z".to_vec()])];
+        for (nm, bundle) in [("xy", vec![x.clone(), y.clone()]), ("yx", vec![y.clone(), x.clone()]), ("xyz", vec![x.clone(), y.clone(), z.clone()]), ("xx", vec![x.clone(), x.clone()])] {
+            res.obligations += 1;
+            match run_many(&bundle) {
+                Err(e) => fail(&mut res, format!("fingerprint-in-bundle-{nm}/accepted"), format!("bundle {nm}: rejected ({e})")),
+                Ok(per) => {
+                    let mut bad = vec![];
+                    for (i, conds) in bundle.iter().enumerate() {
+                        // alone, as the coin it is in the bundle (coin i has parent [i + 1; 32])
+                        let mut solo: Vec<Vec<Vec<u8>>> = vec![vec![cond(&[vec![51], vec![0x33u8; 32], vec![0x03, 0xe8]])]; i];
+                        solo.push(conds.clone());
+                        if let Ok(s) = run_many(&solo) { if s[i].1 != per[i].1 { bad.push(i); } }
+                    }
+                    if bad.is_empty() { res.discharged += 1; } else { fail(&mut res, format!("fingerprint-in-bundle-{nm}/fingerprint"), format!("bundle {nm}: the fingerprint of spend(s) {bad:?} differs from the fingerprint of the same spend in a bundle where its neighbours are other spends")); }
+                }
+            }
+        }
+    }
     // small edits of a dedup-eligible list change the fingerprint: another amount split, another hint, another announcement
     {
         let base = vec![cond(&[vec![51], vec![9u8; 32], vec![0x03, 0xe8], vec![]]), cond(&[vec![60], b"x".to_vec()])];
